@@ -33,10 +33,16 @@ package pebble
 //@ requires r.synced()
 
 // the store handed to the log database is opened with synced writes
-//@ func openPebbleDB [C04]
+//@ func openPebbleDB [C04 C10]
 //@ noframe
 //@ nobounds
+//@ requires fileutil.gDirtyDir == 0
+//@ modifies fileutil.gDirtyDir
 //@ ensures result1 == nil ==> result0 != nil && typeof(result0) == typeid(*KV) && as(*KV, result0).synced()
+// the store's directories (data and, when configured, a separate WAL directory) are created durably:
+// a store that reports success has no directory entry left unsynced, otherwise a crash can drop the
+// whole WAL directory together with every acknowledged write still in it
+//@ ensures result1 == nil ==> fileutil.gDirtyDir == 0
 
 // library calls made while opening the store: none of them can reach the write options object
 //@ extern sync (o *Once) Do
